@@ -2,6 +2,7 @@ package ircserver
 
 import (
 	"hash/fnv"
+	"strings"
 
 	"github.com/robustirc/robustirc/internal/robust"
 
@@ -21,6 +22,18 @@ func (i *IRCServer) cmdServerNick(s *Session, reply *Replyctx, msg *irc.Message)
 	// Could be either a nickchange or the introduction of a new user.
 	if len(msg.Params) == 1 {
 		// TODO(secure): handle nickchanges. not sure when/if those are used. botserv maybe?
+		return
+	}
+
+	if !IsValidNickname(msg.Params[0]) {
+		// The nickname becomes the prefix of every line relayed from the
+		// pseudo-client: an overlong or malformed one truncates away the
+		// command and all parameters of those lines.
+		i.sendServices(reply, &irc.Message{
+			Prefix:  i.ServerPrefix,
+			Command: irc.ERR_ERRONEUSNICKNAME,
+			Params:  []string{"*", msg.Params[0], "Erroneous nickname"},
+		})
 		return
 	}
 
@@ -56,6 +69,10 @@ func (i *IRCServer) cmdServerNick(s *Session, reply *Replyctx, msg *irc.Message)
 	ss.Nick = msg.Params[0]
 	i.nicks[NickToLower(ss.Nick)] = ss
 	ss.Username = msg.Params[3]
+	if len(ss.Username) > maxUsernameLen {
+		// See cmdUser: the user name is part of the prefix, too.
+		ss.Username = strings.ToValidUTF8(ss.Username[:maxUsernameLen], "")
+	}
 	ss.Realname = msg.Trailing()
 	ss.updateIrcPrefix()
 }
